@@ -27,10 +27,10 @@ def T(tier, quick, thorough):
 
 def run(tier, seed, t0):
     m = Merged(); wd = R.workdir("C19")
-    n = T(tier, 120, 10000)
+    n = T(tier, 120, 30000)
     R.run_inv(Inv("outputs", n, "plain", timeout=T(tier, 900, 14400)), seed, wd, m)
     # the same with 4 solver threads (mesh output and statistics are written from the parallel phases of the solver)
-    n4 = T(tier, 40, 2000)
+    n4 = T(tier, 40, 6000)
     R.run_inv(Inv("outputs", n4, "plain", threads=4, shards=4, first=n, timeout=T(tier, 900, 14400), tag="outputs/plain/t4"), seed, wd, m)
     b = m.bins; f = n / 120.0
 
